@@ -38,8 +38,8 @@ PROPS = {
              "reader); all-paths: non-trivial = such a script with at least two paths; distinct = distinct serialised cases.",
         assumptions=["choices are reduced modulo the number of options (out-of-range choices are outside the property's domain)"],
         subs=[
-            rapid("flow", "TestC01Flow", 1500, 12000),
-            rapid("all-paths", "TestC01AllPaths", 150, 1500),
+            rapid("flow", "TestC01Flow", 1500, 8000),
+            rapid("all-paths", "TestC01AllPaths", 120, 600),
         ],
     ),
     "C02": dict(
